@@ -8,6 +8,8 @@ CONSTANTS
   OtherPeer = FALSE
   ClearOnAnyDisconnect = FALSE
   SeqCallers = FALSE
+  PeerMayClose = FALSE
+  LeakIfGoneAtTimeout = FALSE
   RemoveOnTimeout = TRUE
 INVARIANT OwnReplyOnly
 INVARIANT AtMostOnce
